@@ -4,6 +4,104 @@ from trace import canon_events
 from solvers_common import verdict_of, spec_info, match_known
 
 
+def _propagate(clauses, assign):
+    """unit propagation from a partial assignment {var: bool}: -> 'conflict' / 'model' (every clause satisfied) / 'open'"""
+    assign = dict(assign)
+    changed = True
+    while changed:
+        changed = False
+        for cl in clauses:
+            sat, free = False, []
+            for l in cl:
+                v = assign.get(abs(l))
+                if v is None:
+                    free.append(l)
+                elif v == (l > 0):
+                    sat = True
+                    break
+            if sat:
+                continue
+            if not free:
+                return "conflict"
+            if len(free) == 1:
+                assign[abs(free[0])] = free[0] > 0
+                changed = True
+    for cl in clauses:
+        if not any(assign.get(abs(l)) == (l > 0) for l in cl):
+            return "open"
+    return "model"
+
+
+def cnf_poly_verdict(c):
+    """Polynomial oracle on the RECORDED CNF of the implementation, for frameworks of any size (the all-models oracle of
+    `driver encspec` stops at 10 arguments / 26 variables): with the argument variables (and the range variables)
+    fixed to a given set, the auxiliary variables of every encoder are forced by unit propagation, so whether that set
+    is a model is decided in polynomial time.  Sets whose status is known without search: the grounded extension G is
+    conflict-free, admissible and complete (a model of the cf / adm / co encoders; of the stable encoder iff it is
+    stable); G plus an argument it defeats is not conflict-free (a model of no encoder); the empty set is complete iff
+    no argument is unattacked.  -> None or a `bad ...` verdict."""
+    k = c.kind.split("/")
+    if len(k) < 3 or k[0] != "encoders":
+        return None
+    enc, rng_ = k[1], k[2] == "range"
+    n, rel = None, set()
+    for l in c.ins:
+        t = l.split()
+        if t and t[0] == "iccma":
+            n = int(t[1])
+            ids = [int(x) for x in t[2:]]
+            rel = set(zip(ids[0::2], ids[1::2]))
+    a2l = frv = None
+    for o in c.outs:
+        t = o.split()
+        if t and t[0] == "a2l":
+            a2l = [int(x) for x in t[1:]]
+        elif t and t[0] == "frv" and len(t) > 1 and t[1].lstrip("-").isdigit():
+            frv = int(t[1])
+    if n is None or a2l is None or len(a2l) != n or "encoded" not in c.outs or (rng_ and frv is None):
+        return None
+    clauses = [[int(x) for x in e.split()[2:]] for e in c.evs if e.split()[1:2] == ["cl"]]
+    attackers = {a: set() for a in range(n)}
+    targets = {a: set() for a in range(n)}
+    for (a, b) in rel:
+        attackers[b].add(a)
+        targets[a].add(b)
+    G, D, ch = set(), set(), True
+    while ch:
+        ch = False
+        for a in range(n):
+            if a not in G and a not in D and attackers[a] <= D:
+                G.add(a); D |= targets[a]; ch = True
+
+    def run(S):
+        asg = {}
+        hit = set()
+        for a in S:
+            hit |= targets[a]
+        for i in range(n):
+            l = a2l[i]
+            asg[abs(l)] = (i in S) == (l > 0)
+            if rng_:
+                asg[frv + i] = (i in S) or (i in hit)
+        return _propagate(clauses, asg)
+
+    sem = "st" if enc == "st" else enc.split("_")[-1]
+    g_stable = not (set(range(n)) - G - D)
+    if sem in ("cf", "adm", "co") or g_stable:
+        if run(G) == "conflict":
+            return "bad poly-cnf-the-grounded-extension-is-not-a-model"
+    elif sem == "st" and run(G) == "model":
+        return "bad poly-cnf-a-set-that-is-not-stable-is-a-model"
+    # (arguments with several attackers, exactly one of them in G, first: a lost attacker shows there)
+    cand = sorted((x for x in D if len(attackers[x]) >= 2), key=lambda x: (len(attackers[x] & G), x))[:24]
+    for x in cand + sorted(D)[:4]:
+        if run(G | {x}) == "model":
+            return "bad poly-cnf-a-set-with-a-conflict-is-a-model-(grounded-extension-plus-argument-%d)" % x
+    if sem == "co" and G and run(set()) == "model":
+        return "bad poly-cnf-the-empty-set-is-a-model-although-an-argument-is-unattacked"
+    return None
+
+
 def main(ctx):
     proofs_ok = check_proofs(ctx)
     h = build_harness(ctx)
@@ -58,6 +156,10 @@ def main(ctx):
                 v = verdict_of(sp) if sp else "missing"
                 if v.startswith("skipped"):
                     stats["skipped_large"] += 1
+                    pv = cnf_poly_verdict(c)
+                    stats["judged_by_the_polynomial_cnf_oracle"] = stats.get("judged_by_the_polynomial_cnf_oracle", 0) + 1
+                    if pv is not None:
+                        v = pv
                 else:
                     stats["judged"] += 1
                 if len(samples) < 3 and ncl >= 4 and sp:
